@@ -295,12 +295,52 @@ def r07b(ck, prog):
     ck.floor("R07b", len(calls), 6, "aln_runner call sites in do_align")
 
 
+def r07c(ck, prog):
+    """sum-of-pairs weighting of groups: a profile's gap penalties are scaled by the number of sequences in the
+    group it is aligned against (the profile itself already carries its own member count through update_n):
+    set_gap_penalties_n(profile[X], len_X, nsip[Y]) with {X, Y} = {a, b}, once for each side"""
+    D = prog.fn("do_align")
+    calls = list(D.body.calls("set_gap_penalties_n"))
+    if len(calls) < 2:
+        raise AnalysisBroken("R07c slot: do_align calls set_gap_penalties_n %d time(s)" % len(calls))
+    seen = set()
+    for c in calls:
+        if len(c.args) < 3:
+            continue
+        pa, la, sa = c.args[0].text(), c.args[1].text(), c.args[2].text()
+        mx = re.search(r"profile\[(\w+)\]", pa)
+        my = re.search(r"nsip\[(\w+)\]", sa)
+        ml = re.search(r"len_(\w+)", la)
+        where = site(prog, c, "set_gap_penalties_n")
+        ck.inst("R07c", where, "set_gap_penalties_n(%s, %s, %s)" % (pa, la, sa), prog.config)
+        if not (mx and my and ml):
+            raise AnalysisBroken("R07c: arguments of set_gap_penalties_n at %s not understood" % c.loc)
+        x, y, l = mx.group(1), my.group(1), ml.group(1)
+        if x != l:
+            ck.violation("R07c", "R07c/do_align/length-%s" % x, where,
+                         "the profile of node %s is given the length of node %s" % (x, l), prog.config)
+        if x == y:
+            ck.violation("R07c", "R07c/do_align/weight-%s" % x, where,
+                         "the gap penalties of profile %s are scaled by its own member count nsip[%s] instead of the size of the group "
+                         "it is aligned against: a gap opposite an n-member group costs n*n instead of n*m" % (x, y), prog.config)
+        # the call sits on the branch where X is a profile (nsip[X] != 1)
+        gs = [(cnd.text(), pol) for cnd, pol in guards(c) if "nsip" in cnd.text()]
+        if not any(("nsip[%s]" % x) in t and "== 1" in t.replace("(", "").replace(")", "") and not pol for t, pol in gs):
+            ck.violation("R07c", "R07c/do_align/branch-%s" % x, where,
+                         "set_gap_penalties_n for node %s is not on the 'node %s is a profile' branch (%s)" % (x, x, gs), prog.config)
+        seen.add(x)
+    if len(seen) != 2:
+        ck.violation("R07c", "R07c/do_align/sides", site(prog, D), "gap penalties are rescaled for node(s) %s only" % sorted(seen), prog.config)
+
+
 def run(ck, progs):
     describe(ck)
+    ck.rule("R07c", "group weighting: each profile's gap penalties are scaled by the size of the other group, for both sides, on the branch where that side is a profile")
     from . import c02
     for cfg, prog in progs.items():
         ck.attempt(r07a, ck, prog)
         ck.attempt(r07b, ck, prog)
+        ck.attempt(r07c, ck, prog)
         before = len(ck.instances)
         ck.attempt(c02.r02g, ck, prog)
         for i in ck.instances[before:]:
